@@ -103,7 +103,7 @@ def make_config(rng, profile, tier):
             top = ['+', top, ['*', ['gascat', 1, rng.choice(ALTS)], ['var', 'x1']]]
     return {'sizes': sizes, 'cats': cats, 'top': top, 'helpers': helpers, 'nseg': nseg,
             'max_seg': rng.choice([1, 2, 5]), 'data_seed': rng.randrange(1 << 30),
-            'ctrl_style': rng.choice(['plain', 'plain', 'case']), 'seg_many': rng.random() < 0.4,
+            'ctrl_style': rng.choice(['plain', 'plain', 'case', 'pad']), 'seg_many': rng.random() < 0.4,
             'seg_ref': rng.random() < 0.4, 'names_as_iterator': rng.random() < 0.3}
 
 
@@ -197,7 +197,13 @@ class Session:
         self._cn = ([f'k{i}' for i in range(len(cfg['sizes']))] if cfg.get('ctrl_style', 'plain') == 'plain'
                     else ['Cost', 'cost', 'COST', 'cOst'][:len(cfg['sizes'])])
         self.ctrl_names = list(self._cn)
-        self.member_names = {self._cn[i]: [f'm{j}' for j in range(s)] for i, s in enumerate(cfg['sizes'])}
+        if cfg.get('ctrl_style') == 'pad':
+            # names padded with blanks to a common width (free strings: only the two separators are reserved)
+            self._cn = [f'k{i}' + ' ' * (i % 2) for i in range(len(cfg['sizes']))]
+            self.ctrl_names = list(self._cn)
+        pad_ = (lambda j: ' ' * (j % 2)) if cfg.get('ctrl_style') == 'pad' else (lambda j: '')
+        self.member_names = {self._cn[i]: [(' ' if pad_(j) and i % 2 else '') + f'm{j}' + ('' if i % 2 else pad_(j))
+                                           for j in range(s)] for i, s in enumerate(cfg['sizes'])}
         # the names of the alternatives of a controller: a list, or any one-shot iterable (the signature says Iterable)
         as_it = (lambda l_: iter(list(l_))) if cfg.get('names_as_iterator') else (lambda l_: l_)
         self.controllers = {nm: Controller(nm, as_it(self.member_names[nm])) for nm in self.ctrl_names}
